@@ -1,14 +1,20 @@
 #!/bin/bash
-# Confirms every seed under /tmp/wt/m-*-out/{a,b} that has no confirm.json yet, one at a time (flock: only one queue runs).
+# Confirms every seed under /tmp/wt/{m,n}-*-out/{a,b} that has patch.diff + demo.py + meta.json (all untouched for 6 minutes, i.e. the
+# agent is done with them) and no confirm.json yet, one at a time (flock: only one queue runs).
 exec 9>/tmp/wt/.confirm.lock
 flock -n 9 || { echo "queue already running"; exit 0; }
 while :; do
   todo=""
-  for d in /tmp/wt/m-*-out/a /tmp/wt/m-*-out/b; do
-    [ -f "$d/patch.diff" ] && [ ! -f "$d/confirm.json" ] && { todo="$d"; break; }
+  for d in /tmp/wt/[mn]-*-out/a /tmp/wt/[mn]-*-out/b; do
+    [ -f "$d/patch.diff" ] && [ -f "$d/demo.py" ] && [ -f "$d/meta.json" ] && [ ! -f "$d/confirm.json" ] || continue
+    recent=$(find "$d/patch.diff" "$d/demo.py" "$d/meta.json" -mmin -6 | wc -l)
+    [ "$recent" -eq 0 ] && { todo="$d"; break; }
   done
   [ -z "$todo" ] && break
-  prop=$(basename "$(dirname "$todo")" | sed 's/^m-//; s/-out$//')
-  /verif/tools/confirm_seed.sh "$todo" "$prop$(basename "$todo")" "${1:-6}"
+  base=$(basename "$(dirname "$todo")")
+  prop=$(echo "$base" | sed 's/^[mn]-//; s/-out$//')
+  wave=$(echo "$base" | cut -c1)
+  suffix=$(basename "$todo"); [ "$wave" = n ] && suffix="${suffix}2"
+  /verif/tools/confirm_seed.sh "$todo" "$prop$suffix" "${1:-6}"
 done
 echo "queue empty"
